@@ -23,7 +23,15 @@ structure Params where
   memOps : Bool
   t0Events : Bool
   skew : Nat := 0
+  /-- V2-only mode (`GM.fwd_tok`): an ordinary event of type ≥ 1 is also forwarded, unchanged and with zero delay, to the next LP
+  of the ring while the LP's counter is not a multiple of 4 — incomparable with its cause (`Spec.V2` holds, `Spec.V2s` does not) -/
+  fwdTok : Bool := false
 deriving Repr
+
+/-- the `t0` field of the `model` line: bit 0 = `t0Events`, bit 1 = `fwdTok` (harness/hrun.c) -/
+def Params.ofFields (seed lps types fan thr spread rng mem t0 skew : Nat) : Params :=
+  { seed := UInt64.ofNat seed, nLps := lps, nTypes := types, maxFan := fan, thrBase := thr, thrSpread := spread,
+    useRng := rng != 0, memOps := mem != 0, t0Events := t0 % 2 != 0, skew := skew, fwdTok := t0 / 2 % 2 != 0 }
 
 def mix (z0 : UInt64) : UInt64 :=
   let z := z0 + 0x9e3779b97f4a7c15
@@ -198,7 +206,12 @@ def onEvent (P : Params) (me : Nat) (s : GState) (e : Event) : GState × List Ev
     let dq := delaysQ.getD ((((hj >>> 8) + (a >>> 34)) % 7).toNat) 0
     let ty' := (hj >>> 16).toNat % e.type
     some (mkEvent dest (e.t + dq) ty' (sizes.getD (((hj >>> 24) % 8).toNat) 0) a (bit hj 40)))
-  (s', tick ++ extras)
+  -- V2-only mode: the event itself goes on to the next LP, unchanged, at the same time stamp (type ≥ 1 here)
+  let fwd : List Event :=
+    if P.fwdTok ∧ e.type ≠ P.nTypes - 1 ∧ (cnt &&& 3) != 0 then
+      [{ dest := (me + 1) % P.nLps, t := e.t, type := e.type, payload := e.payload }]
+    else []
+  (s', tick ++ extras ++ fwd)
 
 def handler (P : Params) (me : Nat) (s : GState) (e : Event) : GState × List Event :=
   if e.type = LP_INIT then onInit P me s
